@@ -41,7 +41,11 @@ impl<'a> SocketRead<'a> {
             co_io_result(self.is_coroutine)?;
 
             // clear the io_flag
+            #[cfg(may_verif)]
+            crate::verif::pt("io.clear_flag", crate::verif::addr(&**self.io_data), 0, 0);
             self.io_data.io_flag.store(0, Ordering::Relaxed);
+            #[cfg(may_verif)]
+            crate::verif::pt("io.syscall", crate::verif::addr(&**self.io_data), 0, 0);
 
             // finish the read operation
             match read(fd, self.buf) {
@@ -55,11 +59,15 @@ impl<'a> SocketRead<'a> {
                 }
             }
 
+            #[cfg(may_verif)]
+            crate::verif::pt("io.recheck", crate::verif::addr(&**self.io_data), 0, 0);
             if self.io_data.io_flag.load(Ordering::Relaxed) != 0 {
                 continue;
             }
 
             // the result is still WouldBlock, need to try again
+            #[cfg(may_verif)]
+            crate::verif::pt("io.yield", crate::verif::addr(&**self.io_data), 0, 0);
             yield_with_io(self, self.is_coroutine);
         }
     }
@@ -81,10 +89,16 @@ impl EventSource for SocketRead<'_> {
         // after register the coroutine, it's possible that other thread run it immediately
         // and cause the process after it invalid, this is kind of user and kernel competition
         // so we need to delay the drop of the EventSource, that's why _g is here
+        #[cfg(may_verif)]
+        let vid = crate::verif::co_vid(&co);
+        #[cfg(may_verif)]
+        crate::verif::pt("iosub.store_co", crate::verif::addr(&**io_data), vid, 0);
         io_data.co.store(co);
         // till here the io may be done in other thread
 
         // there is event, re-run the coroutine
+        #[cfg(may_verif)]
+        crate::verif::pt("iosub.recheck", crate::verif::addr(&**io_data), vid, 0);
         if io_data.io_flag.load(Ordering::Acquire) != 0 {
             #[allow(clippy::needless_return)]
             return io_data.fast_schedule();
@@ -93,6 +107,8 @@ impl EventSource for SocketRead<'_> {
         #[cfg(feature = "io_cancel")]
         {
             // register the cancel io data
+            #[cfg(may_verif)]
+            crate::verif::pt("iosub.set_cancel", crate::verif::addr(&**io_data), vid, 0);
             cancel.set_io((*io_data).clone());
             // re-check the cancel status
             if cancel.is_canceled() {
